@@ -153,6 +153,7 @@ type exec struct {
 	park      chan struct{} // a Run held at a *.run.afterCAS point waits here
 	unparked  bool
 	parkPoint atomic.Value // string: the point at which the next Run is to be held ("" none)
+	curAdd    atomic.Int64 // the closer offered by the AddCloser call being made (0: none / the manager's own / unsupported value)
 	rm     *concurrency.RunnerManager
 	rcm    *concurrency.RunnerCloserManager
 	ctx    context.Context
@@ -278,6 +279,7 @@ func (x *exec) closer(j int) any {
 func (x *exec) hook(point string) {
 	switch point {
 	case "addcloser.afterCheck":
+		x.ev("h.addcloser", tv.M{"j": int(x.curAdd.Swap(0))})
 		if x.armed.CompareAndSwap(true, false) {
 			<-x.gate
 		}
@@ -286,6 +288,8 @@ func (x *exec) hook(point string) {
 		// started (the inner RunnerManager of a closer manager is not announced)
 		if (point == "closer.run.afterCAS") == (x.rcm != nil) {
 			x.ev("runstarted", nil)
+		} else if x.rcm != nil {
+			x.ev("h.inner", nil) // the inner RunnerManager of a closer manager won its CAS
 		}
 		if pp, _ := x.parkPoint.Load().(string); pp == point {
 			x.parkPoint.Store("")
@@ -341,20 +345,24 @@ func (x *exec) do(st step) {
 		err := x.add(x.runner(st.I))
 		x.ev("addrunner", tv.M{"i": st.I, "ok": err == nil})
 	case "addcloser":
-		x.ev("addcloser.call", tv.M{"j": st.I})
+		x.ev("addcloser.call", tv.M{"j": st.I, "gate": false, "mix": false})
+		x.curAdd.Store(int64(st.I))
 		err := x.rcm.AddCloser(x.closer(st.I))
 		x.ev("addcloser.ret", tv.M{"j": st.I, "ok": err == nil})
 	case "addcloserasync": // AddCloser from its own goroutine (it may have to wait for the manager's lock)
-		x.ev("addcloser.call", tv.M{"j": st.I})
+		x.ev("addcloser.call", tv.M{"j": st.I, "gate": false, "mix": false})
+		x.curAdd.Store(int64(st.I))
 		go func() {
 			err := x.rcm.AddCloser(x.closer(st.I))
 			x.ev("addcloser.ret", tv.M{"j": st.I, "ok": err == nil})
 		}()
 	case "addclosermix": // a supported closer together with a value of an unsupported type
-		x.ev("addcloser.call", tv.M{"j": st.I})
+		x.ev("addcloser.call", tv.M{"j": st.I, "gate": false, "mix": true})
+		x.curAdd.Store(int64(st.I))
 		err := x.rcm.AddCloser(x.closer(st.I), 42)
 		x.ev("addcloser.ret", tv.M{"j": st.I, "ok": err == nil})
 	case "addcloserbad":
+		x.curAdd.Store(0)
 		var err error
 		if st.I%2 == 0 {
 			err = x.rcm.AddCloser(func(int) error { return nil })
@@ -363,13 +371,15 @@ func (x *exec) do(st step) {
 		}
 		x.ev("addcloser.bad", tv.M{"ok": err == nil})
 	case "gateadd": // AddCloser that stops between its closing check and taking the lock
-		x.ev("addcloser.call", tv.M{"j": st.I})
+		x.ev("addcloser.call", tv.M{"j": st.I, "gate": true, "mix": false})
+		x.curAdd.Store(int64(st.I))
 		x.armed.Store(true)
 		go func() {
 			err := x.rcm.AddCloser(x.closer(st.I))
 			x.ev("addcloser.ret", tv.M{"j": st.I, "ok": err == nil})
 		}()
 	case "ungate":
+		x.ev("h.ungate", nil)
 		x.ungate()
 	case "unpark":
 		x.unpark()
@@ -518,11 +528,28 @@ func countOps(sc scenario, op string) int {
 	return n
 }
 
+// record appends the observable (contract-level) trace of a run: the hook-level-only events ("h.*") are left out.
 func record(b *tv.Batch, sc scenario, evs []rec) int {
+	return recordLevel(b, sc, evs, false)
+}
+
+// recordImpl appends the hook-level trace: the observable events plus every verif point the manager passed.
+func recordImpl(b *tv.Batch, sc scenario, evs []rec) int {
+	return recordLevel(b, sc, evs, true)
+}
+
+func recordLevel(b *tv.Batch, sc scenario, evs []rec, hooks bool) int {
 	tr := b.Start(tv.M{"kind": sc.Kind, "G": sc.Grace, "pdl": sc.PDL, "nr": sc.NR, "nc": sc.NC, "r0": sc.R0,
 		"nruns": countOps(sc, "run") + countOps(sc, "runpark"), "ncl": countOps(sc, "close")})
 	for _, e := range evs {
-		b.Ev(e.name, e.m)
+		if !hooks && strings.HasPrefix(e.name, "h.") {
+			continue
+		}
+		m := tv.M{}
+		for k, v := range e.m {
+			m[k] = v
+		}
+		b.Ev(e.name, m)
 	}
 	return tr
 }
@@ -1022,6 +1049,10 @@ func TestCheck(t *testing.T) {
 	var batches []*tv.Batch
 	var firstOf []int // index of the first scenario of every batch
 	dead, hung := 0, 0
+	// a sample of the runs is also recorded at hook level and checked against the implementation-shaped model itself
+	hb := &tv.Batch{}
+	var hbOf []int
+	stride := len(scs)/ev.Pick(2500, 20000) + 1
 	t0 := time.Now()
 	for i, sc := range scs {
 		if i%chunk == 0 {
@@ -1040,6 +1071,10 @@ func TestCheck(t *testing.T) {
 			}
 		}
 		record(batches[len(batches)-1], sc, evs)
+		if i%stride == 0 && !h {
+			recordImpl(hb, sc, evs)
+			hbOf = append(hbOf, i)
+		}
 		if nontrivial(sc) {
 			e.Nontrivial(fmt.Sprintf("%v", sc))
 		}
@@ -1089,6 +1124,21 @@ func TestCheck(t *testing.T) {
 		}
 	}
 	e.Set("traces_validated_against_impl", int64(validated))
+
+	// 3b. model-binding validation: the hook-level traces have to be behaviours of CloserMgr.tla (drift detection)
+	hmissing, hres := tv.ValidateDoneChunked(tlc.Opts{Dir: "Managers", Module: "TraceMgrImpl", Config: "TraceMgrImpl.cfg", Workers: 8,
+		Timeout: ev.Pick(6*time.Minute, 30*time.Minute), HeapMB: 10000}, hb)
+	fmt.Printf("TLC model-binding validation (hook-level traces vs CloserMgr.tla): ok=%v traces=%d not-explained=%d distinct=%d wall=%s %s\n",
+		hres.OK, hb.Len(), len(hmissing), hres.Distinct, hres.Wall.Round(time.Millisecond), hres.What)
+	e.Set("impl_traces_validated", int64(hb.Len()))
+	e.Set("impl_drift_traces", int64(len(hmissing)))
+	e.Set("drift", len(hmissing) > 0 || !hres.OK)
+	if !hres.OK {
+		fmt.Printf("DRIFT property=C12 model-binding validation did not run to completion: %s\n%s\n", hres.What, hres.Tail(1500))
+	} else if len(hmissing) > 0 {
+		fmt.Printf("DRIFT property=C12 %d hook-level traces are not behaviours of CloserMgr.tla (model and code diverge; not a violation by itself), first: scenario %+v trace %v\n",
+			len(hmissing), scs[hbOf[hmissing[0]]], hb.TraceStrings(hmissing[0]))
+	}
 
 	// 4. binding self-test
 	selfTest(t, e)
@@ -1173,6 +1223,55 @@ func selfTest(t *testing.T, e *ev.Evidence) {
 	ok := (res.OK || res.Violation) && !g0 && g1 && g2 && g3 && g4 && startLine != nil
 	e.Set("binding_selftest", tv.M{"unmodified_accepted": !g0, "closer_return_removed_rejected": got[1], "error_dropped_from_run_result_rejected": got[2],
 		"fatal_event_removed_rejected": got[3], "closer_start_before_last_runner_return_rejected": got[4]})
+	// the same for the model binding: the unmodified hook-level trace is a behaviour of CloserMgr.tla; without the inner
+	// manager's CAS point, without the fatal event, or with Run's return moved before the last closer's, it is not
+	hgood := &tv.Batch{}
+	recordImpl(hgood, sc, evs)
+	hl := hgood.Trace(0)
+	var hA, hB, hC [][]byte
+	var retLine []byte
+	for _, l := range hl {
+		if bytes.Contains(l, []byte(`"ev":"runreturn"`)) && bytes.Contains(l, []byte(`"rejected":false`)) {
+			retLine = l
+		}
+	}
+	lastCloserRet := -1
+	for i, l := range hl {
+		if !bytes.Contains(l, []byte(`"ev":"h.inner"`)) {
+			hA = append(hA, l)
+		}
+		if !bytes.Contains(l, []byte(`"ev":"fatal"`)) {
+			hB = append(hB, l)
+		}
+		if bytes.Contains(l, []byte(`"ev":"closerreturn"`)) {
+			lastCloserRet = i
+		}
+	}
+	for i, l := range hl {
+		if i == lastCloserRet {
+			hC = append(hC, retLine)
+		}
+		if !bytes.Equal(l, retLine) {
+			hC = append(hC, l)
+		}
+	}
+	hbb := &tv.Batch{}
+	hbb.AppendTrace(hl)
+	hbb.AppendTrace(hA)
+	hbb.AppendTrace(hB)
+	hbb.AppendTrace(hC)
+	hm, hres := tv.ValidateDone(tlc.Opts{Dir: "Managers", Module: "TraceMgrImpl", Config: "TraceMgrImpl.cfg", Workers: 2, Timeout: 2 * time.Minute}, hbb)
+	un := map[int]bool{}
+	for _, i := range hm {
+		un[i] = true
+	}
+	e.Set("impl_binding_selftest", tv.M{"unmodified_explained": !un[0], "inner_cas_point_removed_unexplained": un[1], "fatal_event_removed_unexplained": un[2],
+		"run_return_before_last_closer_return_unexplained": un[3]})
+	if hres.OK && !g0 && !(!un[0] && un[1] && un[2] && un[3]) {
+		e.Inconclusive(fmt.Sprintf("model-binding self-test failed: unexplained=%v trace=%v", hm, hgood.TraceStrings(0)))
+	} else if !hres.OK {
+		e.Inconclusive("model-binding self-test did not run: " + hres.What)
+	}
 	if g0 && (res.OK || res.Violation) {
 		// the real code itself misbehaves in the self-test scenario: that is a finding, not a binding problem
 		e.Violation(findingKey(sc, got[0]), got[0], tv.M{"scenario": sc, "trace": good.TraceStrings(0)})
